@@ -144,8 +144,10 @@ inductive Expr
   | starred (x : Expr)
   /-- delegated to astor, inside the modelled fragment -/
   | astor (a : AExpr)
-  /-- delegated to astor, text supplied (`astor.to_source(node).strip()`) -/
-  | opaque (txt : List Char)
+  /-- delegated to astor, text supplied: `oneLine` = `astor.to_source(node, pretty_source=''.join).strip()`
+  (what `_colorize_ast_generic` asks for when `state.linebreakok` is false, a5155ca), `wrapped` =
+  `astor.to_source(node).strip()` (astor may wrap long lines) when line breaks are allowed -/
+  | opaque (oneLine wrapped : List Char)
   /-- delegated to astor and astor raised: `UNKNOWN_REPR` -/
   | unknown
   /-- Python `None` where a node is optional (dict key of `**m`) -/
@@ -326,7 +328,7 @@ structure St where
   lbok : Bool
   deriving Repr, Inhabited
 
-inductive Exc | maxlines | linebreak | valueError | indexError | fuel
+inductive Exc | maxlines | linebreak | valueError | indexError | fuel | recursion
   deriving DecidableEq, Repr, Inhabited
 
 /-- a helper either returns (new state) or raises (exception, state as mutated so far) -/
@@ -610,7 +612,7 @@ def compile (T : PrecTable) (pp : Option Nat) : Expr → Prog
     match renderA T T.highest a with
     | some t => .out t .plain
     | none => .unknown
-  | .opaque t => .out t .plain
+  | .opaque t w => .ifLb (.out w .plain) (.out t .plain)
   | .unknown => .unknown
   | .unlinked e => compile T none e
 def compileList (T : PrecTable) (pp : Option Nat) : List Expr → List Prog
@@ -689,6 +691,11 @@ def colorizeProg (cfg : Cfg) (p : Prog) : Except Exc Colorized :=
         | last :: rev =>
           let rev := if last = linewrapItem then rev else last :: rev
           .ok ⟨(trimResult (rev.length + 3) rev 3).reverse ++ [ellipsisItem], false⟩
+    else if e = .recursion then
+      -- `except RecursionError:` (0a8115c): a warning, what was produced so far, then the ellipsis.
+      -- The model's walk is structural recursion and never raises it itself (`Prog.fail .recursion`
+      -- stands for the interpreter running out of stack at that point).
+      .ok ⟨st.result ++ [ellipsisItem], false⟩
     else .error e
 
 def colorize (T : PrecTable) (cfg : Cfg) (e : Expr) : Except Exc Colorized :=
